@@ -1,6 +1,153 @@
-import CCT.Model.Auth
-/-! # C13 (theorems; work in progress) -/
+import CCT.Props.C14
+import CCT.Props.C06
+/-!
+# C13 — failures are fail-closed and use the documented error families
+
+The model functions use raw dictionary subscripts (`dictIndex`, which *can* yield `KeyError`) wherever the Python code does, so the
+statements below are real theorems about guards, not consequences of the result type: no `KeyError`, `AttributeError`,
+`OverflowError`, `AssertionError` is reachable for any argument.  Termination: every model function is total (structural or
+fuel-bounded recursion accepted by Lean's termination checker).
+-/
 namespace CCT.C13
-open CCT
-theorem placeholder : okU = .ok () := rfl
+open CCT CCT.C15
+open Classical
+
+def OkOrArg (r : Res Unit) : Prop := r = .ok () ∨ r = .error .arg
+
+theorem okOrArg_ite (p : Prop) [Decidable p] : OkOrArg (if p then .ok () else .error .arg) := by
+  by_cases h : p <;> simp [OkOrArg, h]
+
+/-- **every public validator, on every JSON value, either accepts or raises TypeError/ValueError** -/
+theorem validators_families (v : J) :
+    OkOrArg (checkHexStringJ v) ∧ OkOrArg (checkHexKeyJ v) ∧ OkOrArg (checkSignableJ v) ∧ OkOrArg (checkNaturalIntJ v) ∧
+    OkOrArg (checkStringJ v) ∧ OkOrArg (checkListOfHexKeysJ v) ∧ OkOrArg (checkUtcJ v) ∧ OkOrArg (checkGpgFingerprintJ v) ∧
+    OkOrArg (checkGpgSignatureJ v) ∧ OkOrArg (checkSignatureJ v) ∧ OkOrArg (checkAnySignatureJ v) ∧ OkOrArg (checkDelegationJ v) ∧
+    OkOrArg (checkDelegationsJ v) ∧ OkOrArg (checkDelegatingMdJ v) := by
+  refine ⟨checkHexString_total v, checkHexKey_total v, ?_, ?_, ?_, ?_, ?_, checkGpgFingerprint_total v, checkGpgSignature_total v,
+    checkSignature_total v, ?_, ?_, ?_, ?_⟩
+  · unfold checkSignableJ okU; exact okOrArg_ite _
+  · rw [checkNaturalInt_eq]; exact okOrArg_ite _
+  · rw [checkString_eq]; exact okOrArg_ite _
+  · rw [checkListOfHexKeys_eq]; exact okOrArg_ite _
+  · rw [checkUtc_eq]; exact okOrArg_ite _
+  · rw [checkAnySignature_eq]; exact okOrArg_ite _
+  · rw [checkDelegation_eq]; exact okOrArg_ite _
+  · rw [checkDelegations_eq]; exact okOrArg_ite _
+  · rw [checkDelegatingMd_eq]; exact okOrArg_ite _
+
+/-- … and on every other kind of Python value in the argument position -/
+theorem validators_families_anykind (f : J → Res Unit) (hf : ∀ v, OkOrArg (f v)) (v : PyVal) : OkOrArg (liftJ f v) := by
+  cases v with
+  | j x => exact hf x
+  | _ => right; rfl
+
+theorem kind_validators_families (v : PyVal) : OkOrArg (checkBytesLike v) ∧ OkOrArg (checkExpirationDistance v) ∧ OkOrArg (checkKey v) := by
+  cases v <;> simp [OkOrArg, checkBytesLike, checkExpirationDistance, checkKey, okU]
+
+/-- the predicates never raise (C15.pred_agrees) -/
+theorem predicates_never_raise (v : J) : (∃ b, isHexStringJ v = .ok b) ∧ (∃ b, isHexKeyJ v = .ok b) ∧ (∃ b, isHexSignatureJ v = .ok b) ∧
+    (∃ b, isGpgFingerprintJ v = .ok b) ∧ (∃ b, isGpgSignatureJ v = .ok b) ∧ (∃ b, isSignatureJ v = .ok b) :=
+  (pred_agrees v).2.2.2.2.2
+
+/-- `verify_signable`: accept, argument error, or signature error -/
+theorem verifySignable_families (C : CryptoFns) (s k t g : PyVal) :
+    verifySignable C s k t g = .ok () ∨ verifySignable C s k t g = .error .arg ∨ verifySignable C s k t g = .error .signature := by
+  unfold verifySignable
+  split
+  · exact C01.verifySignable_outcomes C _ _ _ _
+  · right; left; split <;> rfl
+  · right; left; rfl
+
+/-- `verify_delegation`: accept, or argument / metadata-verification / unknown-role / signature error -/
+theorem verifyDelegationJ_families (C : CryptoFns) (name : PStr) (u t : J) (gpg : Bool) :
+    verifyDelegationJ C name u t gpg = .ok () ∨ ∃ e, verifyDelegationJ C name u t gpg = .error e ∧
+      (e = .arg ∨ e = .metadataVerification ∨ e = .unknownRole ∨ e = .signature) := by
+  rw [verifyDelegation_eq]
+  by_cases h1 : ¬ Schema t ∨ isSignableJ u ≠ true
+  · rw [if_pos h1]; right; exact ⟨_, rfl, Or.inl rfl⟩
+  · rw [if_neg h1]
+    have hT : Schema t := by by_cases h : Schema t; exact h; exact absurd (Or.inl h) h1
+    have hU : isSignableJ u = true := by by_cases h : isSignableJ u = true; exact h; exact absurd (Or.inr h) h1
+    by_cases h2 : TypeMismatch name u
+    · rw [if_pos h2]; right; exact ⟨_, rfl, Or.inr (Or.inl rfl)⟩
+    · rw [if_neg h2]
+      cases hr : roleOf t name with
+      | none => right; exact ⟨_, rfl, Or.inr (Or.inr (Or.inl rfl))⟩
+      | some d =>
+        simp only [rule_verdict C gpg d u (mem_delegations_ok hT hr) hU]
+        by_cases hm : RuleMet C gpg d u
+        · left; simp [hm]
+        · right; simp only [hm, if_false]; exact ⟨_, rfl, Or.inr (Or.inr (Or.inr rfl))⟩
+
+theorem verifyDelegation_families (C : CryptoFns) (n u t g : PyVal) :
+    verifyDelegation C n u t g = .ok () ∨ ∃ e, verifyDelegation C n u t g = .error e ∧
+      (e = .arg ∨ e = .metadataVerification ∨ e = .unknownRole ∨ e = .signature) := by
+  unfold verifyDelegation
+  repeat' split
+  all_goals first
+    | exact verifyDelegationJ_families C _ _ _ _
+    | (right; exact ⟨_, rfl, Or.inl rfl⟩)
+    | (simp only [bind, Except.bind]
+       rcases (validators_families _).2.2.2.2.2.2.2.2.2.2.2.2.2 with h | h <;> rw [h] <;> right <;> exact ⟨_, rfl, Or.inl rfl⟩)
+
+/-- `verify_root`: accept, or argument / metadata-verification / signature error -/
+theorem verifyRoot_families (C : CryptoFns) (t u : PyVal) :
+    verifyRoot C t u = .ok () ∨ verifyRoot C t u = .error .arg ∨ verifyRoot C t u = .error .metadataVerification ∨
+    verifyRoot C t u = .error .signature := by
+  unfold verifyRoot
+  split
+  · exact C03.verifyRoot_outcomes C _ _
+  · right; left; rfl
+
+/-- the single-signature primitives: accept, argument error, or the crypto library's invalid-signature error -/
+theorem verifySignature_families (C : CryptoFns) (s k d : PyVal) :
+    verifySignature C s k d = .ok () ∨ verifySignature C s k d = .error .arg ∨ verifySignature C s k d = .error .invalidSignature := by
+  unfold verifySignature
+  repeat' split
+  all_goals first
+    | (right; left; rfl)
+    | skip
+  all_goals
+    simp only [isHexSignature_eq, bind, Except.bind]
+    repeat' split
+    all_goals first
+      | (left; rfl)
+      | (right; left; rfl)
+      | (right; right; rfl)
+
+theorem verifyGpgSignatureJ_families (C : CryptoFns) (s k : J) (d : Bytes) :
+    verifyGpgSignatureJ C s k d = .ok () ∨ verifyGpgSignatureJ C s k d = .error .arg ∨ verifyGpgSignatureJ C s k d = .error .invalidSignature := by
+  unfold verifyGpgSignatureJ
+  simp only [bind, Except.bind]
+  rcases checkGpgSignature_total s with h | h
+  · rw [h]
+    rcases checkHexKey_total k with h2 | h2
+    · rw [h2]
+      obtain ⟨kvs, rfl, _, ⟨oh, hoh, _⟩, ⟨sg, hsg, _⟩, _⟩ := (checkGpgSignature_iff s).mp h
+      simp only [dictIndex_some hoh, dictIndex_some hsg]
+      split
+      · left; rfl
+      · right; right; rfl
+    · rw [h2]; right; left; rfl
+  · rw [h]; right; left; rfl
+
+-- the four named error mappings
+/-- insufficient valid signatures on otherwise well-formed arguments: signature error -/
+theorem class_insufficient_sigs (C : CryptoFns) (env keys thr : J) (gpg : Bool) (entries : List (PStr × J)) (signed : J) (ks : List J) (t : Int)
+    (hp : EnvParts env entries signed) (hkeys : keys = .arr ks) (hk : ∀ k ∈ ks, HexN 64 k) (ht : asInt thr = some t) (hpos : 0 < t)
+    (hm : ¬ ThresholdMet C gpg (ks.map strOf) (ser signed) entries t.toNat) :
+    verifySignableJ C env keys thr gpg = .error .signature :=
+  C02.insufficient_is_signature_error C env keys thr gpg entries signed ks t hp hkeys hk ht hpos hm
+/-- an undelegated role: unknown-role error -/
+theorem class_unknown_role (C : CryptoFns) (name : PStr) (u t : J) (gpg : Bool) (hT : Schema t) (hU : isSignableJ u = true)
+    (hm : ¬ TypeMismatch name u) (hr : roleOf t name = none) : verifyDelegationJ C name u t gpg = .error .unknownRole :=
+  C05.unknown_role C name u t gpg hT hU hm hr
+/-- a root-version mismatch: metadata-verification error -/
+theorem class_version_mismatch (C : CryptoFns) (t u : J) (ht : IsRootMd t) (hu : IsRootMd u) (hv : versionOf u ≠ versionOf t + 1) :
+    verifyRootJ C t u = .error .metadataVerification := C03.version_mismatch_error C t u ht hu hv
+/-- a type-for-role mismatch: metadata-verification error -/
+theorem class_type_mismatch (C : CryptoFns) (name : PStr) (u t : J) (gpg : Bool) (hT : Schema t) (hU : isSignableJ u = true)
+    (h : TypeMismatch name u) : verifyDelegationJ C name u t gpg = .error .metadataVerification :=
+  C06.type_mismatch_error C name u t gpg hT hU h
+
 end CCT.C13
